@@ -6,9 +6,13 @@ EXTENDS TwEval
 Ex(e) == Source(e, "sp")
 RECURSIVE Src(_)
 RECURSIVE SrcSeq(_)
+\* what is written between the slot bodies of a component use (and before the first, after the last): nothing, or - by
+\* overriding SlotSep in a .cfg - line breaks, indentation, comments. None of it belongs to a slot body or to the
+\* component file, so none of it may show in the output (C07).
+SlotSep == ""
 RECURSIVE SrcSlots(_)
 SrcSlots(sl) == IF sl = <<>> THEN ""
-                ELSE (IF sl[1].name = "" THEN "@slot" ELSE "@slot(\"" \o sl[1].name \o "\")") \o SrcSeq(sl[1].body) \o "@end"
+                ELSE SlotSep \o (IF sl[1].name = "" THEN "@slot" ELSE "@slot(\"" \o sl[1].name \o "\")") \o SrcSeq(sl[1].body) \o "@end"
                      \o SrcSlots(Tail(sl))
 SrcSeq(ss) == IF ss = <<>> THEN "" ELSE Src(ss[1]) \o SrcSeq(Tail(ss))
 RECURSIVE SrcAlts(_, _)
@@ -33,6 +37,6 @@ Src(s) ==
                          ELSE "@insert(\"" \o s.name \o "\", " \o Ex(s.e) \o ")"
     [] s.k = "slot" -> IF s.name = "" THEN "@slot" ELSE "@slot(\"" \o s.name \o "\")"
     [] s.k = "comp" -> "@component(\"" \o Written(s.name) \o "\"" \o (IF s.args = <<>> THEN "" ELSE ", " \o Ex(ObjL(s.args))) \o ")"
-                       \o (IF s.slots = <<>> THEN "" ELSE SrcSlots(s.slots) \o "@end")
+                       \o (IF s.slots = <<>> THEN "" ELSE SrcSlots(s.slots) \o SlotSep \o "@end")
 
 =============================================================================
